@@ -29,8 +29,7 @@ func (s *CBORSerializer) Serialize(msg wamp.Message) ([]byte, error) {
 
 // Deserialize decodes a cbor payload into a Message.
 func (s *CBORSerializer) Deserialize(data []byte) (wamp.Message, error) {
-	var v []any
-	err := codec.NewDecoderBytes(data, ch).Decode(&v)
+	v, err := decodeList(data, ch)
 	if err != nil {
 		return nil, err
 	}
